@@ -53,7 +53,7 @@ var engines = []engine{
 	{Name: "query-sim", Pkg: "./harness/query", Kind: "real query engine over a database written by the real writer; worker count, memory mode, goroutine schedule and reader/writer interleaving decided by the simulator", Props: []string{"C06", "C08", "C11", "C30", "C31"}},
 	{Name: "capture-sim", Pkg: "./harness/capture", Sync: true, SingleP: true, Kind: "real capture manager with simulated packet sources, fake clock, simulated disk and seeded scheduler at every seam (source calls, mutexes, file-system operations)", Props: []string{"C20", "C21", "C22", "C23", "C27", "C29"}},
 	{Name: "dist-sim", Pkg: "./harness/dist", SingleP: true, Kind: "real distributed query runner, API client querier and HTTP client stack over a simulated transport and clock; reply order, delays, losses, errors and partitions decided by the simulator", Props: []string{"C15", "C31"}},
-	{Name: "stream-sim", Pkg: "./harness/enc", Kind: "real compressor implementations (cgo and pure-Go back ends in one binary) driven as stateful stream code with dirty scratch buffers and fault-injecting writers/readers", Props: []string{"C07"}},
+	{Name: "stream-sim", Pkg: "./harness/enc", Kind: "real compressor implementations (cgo and pure-Go back ends in one binary) driven as stateful stream code with dirty scratch buffers and fault-injecting writers/readers", Props: []string{"C07", "C02"}},
 	{Name: "merge-sim", Pkg: "./harness/merge", Kind: "real MergeDatabases over a read-only source disk and a destination disk; generated database pairs; kills at every mutating operation", Props: []string{"C24", "C25"}},
 }
 
